@@ -42,6 +42,9 @@ C16 line-protocol driver.
   rename <n> <opts>              n sites on ports 8080+i and `servers :<port> { name … }` options (i:name,…): repeated
                                  adaptation and "no server lost", oracle only                 → `oracle-only`
   perm <text> <seed>             \
+  fauth <args>                   `forward_auth … { copy_headers <args> }` through the whole adapter (args = from[>to];…):
+                                 the copy routes in order                   → `To<From,To<From,…`
+  dadapt <text>                  a text with case-variant duplicate names, adapted 64 times (oracle only) → `oracle-only`
   nmeq <textA> <textB>           like eqv, for sites whose named matchers are used at top level, in nested blocks and
                                  inside handle_errors (plus "a named matcher means the same at every use")
   eqv <textA> <textB>             | oracle only, no model answer            → `oracle-only`
@@ -62,6 +65,7 @@ import CaddyModel.C16.BindKeys
 import CaddyModel.C16.ServerOpts
 import CaddyModel.C16.Addr
 import CaddyModel.C16.Normalize
+import CaddyModel.C16.MapSort
 
 namespace CaddyModel.C16
 
@@ -425,6 +429,20 @@ def handle : List String → String
           | _ => false) then "oracle-only" else "bad-op"
     | none => "bad-op"
   | ["perm", t, seed] => if (hexField t).isSome && (canonNat seed).isSome then "oracle-only" else "bad-op"
+  | ["fauth", args] =>
+    let nameOK' := fun (n : String) => !n.isEmpty && n.toList.all fun c => c.isAlphanum || c == '-' || c == '.' || c == '_'
+    let parseArg := fun (a : String) =>
+      match a.splitOn ">" with
+      | [f] => if nameOK' f then some (f, f) else none
+      | [f, t] => if nameOK' f && nameOK' t then some (f, t) else none
+      | _ => none
+    match (args.splitOn ";").mapM parseArg with
+    | some as =>
+      if as.length ≤ 8 then
+        ",".intercalate ((copyHeaderRoutes (headersToCopy as)).map fun (r : String × String) => r.1 ++ "<" ++ r.2)
+      else "bad-op"
+    | none => "bad-op"
+  | ["dadapt", t] => if (hexField t).isSome then "oracle-only" else "bad-op"
   | ["nmeq", a, b] => if (hexField a).isSome && (hexField b).isSome then "oracle-only" else "bad-op"
   | ["eqv", a, b] => if (hexField a).isSome && (hexField b).isSome then "oracle-only" else "bad-op"
   | ["leak", a, b] => if (hexField a).isSome && (hexField b).isSome then "oracle-only" else "bad-op"
